@@ -570,7 +570,11 @@ def hist_failures(line, out):
             deadline = clock - dur(ttl)
             for (sa, se) in removed:
                 if se > deadline:
-                    res.append(("C07", "remove", "op %d %s (clock %d, ttl %s%d): removed segment [%d,%d) which reaches past now-ttl=%d" %
+                    # F71 class: the retention run was started by a tick whose event time is ahead of
+                    # the clock, and the removal is what the event-time deadline explains
+                    f71 = name == "tick" and int(op[1]) > clock and se <= int(op[1]) - dur(ttl)
+                    res.append(("C07", "f71" if f71 else "remove",
+                                "op %d %s (clock %d, ttl %s%d): removed segment [%d,%d) which reaches past now-ttl=%d" %
                                 (i, " ".join(op), clock, ttl[0], ttl[1], sa, se, deadline)))
             if name == "tick" and len(added) > 1:
                 res.append(("C06", "stable", "op %d: tick added %d segments" % (i, len(added))))
@@ -613,6 +617,12 @@ def classify(prop, line, out):
     _, cat, msg = fails[0]
     if prop == "C06" and (f6 or f6b) and all(c in GRID_CATS for _, c, _ in fails):
         return ("known", "F6" if f6 else "F6b", msg)
+    if prop == "C07":
+        if all(c == "f71" for _, c, _ in fails):
+            return ("known", "F71", msg)
+        for _, c, m in fails:
+            if c != "f71":
+                return ("violation", m)
     # prefer a non-grid failure for the message when the history is inside a known class
     for _, c, m in fails:
         if c not in GRID_CATS:
